@@ -89,11 +89,11 @@ pub fn run_prompt(args: Vec<String>) {
                     }
                 };
 
-                let mut compiler = Compiler::new_with_state(symtab, constants);
+                // Compile with a copy of the session state so that a line rejected
+                // by the compiler leaves no definitions (or open scopes) behind
+                let mut compiler = Compiler::new_with_state(symtab.clone(), constants.clone());
                 if let Err(e) = compiler.compile(program) {
                     eprintln!("{}", e);
-                    symtab = compiler.symtab;
-                    constants = compiler.constants;
                     continue;
                 }
                 let bytecode = compiler.bytecode();
